@@ -663,6 +663,12 @@ VTWINS = [
     ("schema.list(schema.int.min(1))", "[1, 0, 1, 0]"), ("schema.list(schema.str.len(1))", "['a', 'ab', 'a', 'ab']"),
     ("schema.any(schema.int, schema.float)", "True"), ("schema.any(schema.bool, schema.float)", "1"),
     ("schema.list(schema.none)", "[None, 0, None, False]"), ("schema.list(schema.float.precision(1))", "[1.0, 1, 1.04]"),
+    # a fixed float with a precision whose scaled value is large: neighbours on the precision grid differ
+    ("schema.float(1234.5).precision(6)", "1234.500001"), ("schema.float(1234.5).precision(6)", "1234.5000004"),
+    ("schema.float(123456.789).precision(5)", "123456.78901"), ("schema.float(2.0 ** 40).precision(3)", "2.0 ** 40 + 0.001"),
+    ("schema.float(1e15).precision(1)", "1e15 + 0.125"), ("schema.float(-98765.4321).precision(6)", "-98765.432101"),
+    ("schema.list(schema.float(1234.5).precision(6))", "[1234.5, 1234.500001]"),
+    ("schema.float(1234.5).precision(6)", "1234.5"), ("schema.float(1234.5)", "1234.500001"), ("schema.float(1234.5)", "1234.5000000001"),
     # dict subclasses whose __missing__ invents members: a missing key is still missing
     ("schema.dict({'a': schema.int, 'b': schema.int})", "collections.Counter({'a': 1})"),
     ("schema.dict({'a': schema.int, 'b': schema.int})", "collections.defaultdict(int, {'a': 1})"),
